@@ -79,6 +79,29 @@ def stream_mutants(rng, base, key, limit):
         for nc in (0, 2 ** 63, 2 ** 64 - 1, 2 ** 63 - 1):
             e = list(evs); e[k] = (nc, m, p, j)
             put("clock=%d" % nc, obs.encode_stream(e))
+    # index and id fields at the edges of what the metadata declares
+    loom = [l for l in base["desc"]["looms"] if l["name"] == key[0]][0]
+    ncpus = len(loom["cpus"])
+    tids = sorted(t for l in base["desc"]["looms"] for p_ in l["procs"] for t in p_["threads"])
+    cpuvals = [ncpus - 1, ncpus, ncpus + 1, -1, -2, 2 ** 31 - 1, -2 ** 31]
+    tidvals = tids + [0, -1, max(tids) + 1, 2 ** 31 - 1]
+    nfield = 0
+    for k, (c, m, p, j) in enumerate(evs):
+        if m not in ("OHx", "OAs", "OAr") or nfield > 60:
+            continue
+        for cv in cpuvals:
+            e = list(evs); e[k] = (c, m, struct.pack("<i", cv) + p[4:], j)
+            put("field:cpu:%s=%d" % (m, cv), obs.encode_stream(e)); nfield += 1
+        if m in ("OHx", "OAr") and len(p) >= 8:
+            for tv in tidvals:
+                e = list(evs); e[k] = (c, m, p[:4] + struct.pack("<i", tv) + p[8:], j)
+                put("field:tid:%s=%d" % (m, tv), obs.encode_stream(e)); nfield += 1
+    # a remote affinity event naming a thread of the trace that is dead or has not started
+    for k in (1, len(evs) - 1):
+        for tv in tids:
+            for cv in (0, ncpus - 1):
+                e = list(evs[:k]) + [(evs[k - 1][0], "OAr", struct.pack("<ii", cv, tv), False)] + list(evs[k:])
+                put("field:remote-affinity:%d" % k, obs.encode_stream(e))
     # a type-create jumbo with short / unterminated data as the LAST event of
     # the stream (any over-read then leaves the loaded stream)
     models = [m for m in "V6" if m in base["enabled"]]
